@@ -158,6 +158,48 @@ KEMS = {
     0x0012: Kem(0x0012, 3, _c.P521, 133, 66, 64, 0x01),
     0x0020: Kem(0x0020, 1, None, 32, 32, 32, 0xFF),
 }
+
+
+class ToyKem(Kem):
+    """The mock KEM of harness/src/mockkem.rs (plugged into the crate through its public `Kem` trait): every size is 96
+    bytes, i.e. larger than any built-in KEM's (Nsecret 64, Nsk 66).  pk = sk ^ 5a..; DeriveKeyPair folds the ikm into
+    96 bytes; Encap draws enc (96 bytes) and returns enc ^ pkR; Decap returns enc ^ pk(skR).  Not a KEM in any
+    cryptographic sense: it exists so that the generic code around the KEM runs with other sizes."""
+    N = 96
+
+    def __init__(self):
+        Kem.__init__(self, 0x7E57, 1, None, self.N, self.N, self.N, 0xFF)
+
+    def _blob(self, data):
+        if len(data) != self.N:
+            raise RefError("IncorrectInputLength", self.N, len(data))
+        return bytes(data)
+
+    deserialize_public = _blob
+    deserialize_private = _blob
+
+    def pk(self, sk):
+        return bytes(b ^ 0x5A for b in sk)
+
+    def derive_key_pair(self, ikm, want_counter=False):
+        s = bytearray([0x11] * self.N)
+        for i, b in enumerate(ikm):
+            r = (i // self.N) % 8
+            s[i % self.N] ^= ((b << r) | (b >> (8 - r))) & 0xFF
+        sk = bytes(s)
+        res = (sk, self.pk(sk))
+        return res + (0,) if want_counter else res
+
+    def encap(self, pkR, ikmE, skS=None, pkS_claimed=None):
+        e = bytes(ikmE[: self.N])
+        return bytes(a ^ b for a, b in zip(e, pkR)), e
+
+    def decap(self, enc, skR, pkS=None):
+        enc = self._blob(enc)
+        return bytes(a ^ b for a, b in zip(enc, self.pk(skR)))
+
+
+KEMS[0x7E57] = ToyKem()
 KDFS = (1, 2, 3)
 AEADS = (1, 2, 3, 0xFFFF)
 KEM_NAMES = {0x0010: "p256", 0x0011: "p384", 0x0012: "p521", 0x0020: "x25519"}
